@@ -542,3 +542,29 @@ Example C15_make_solver_reuse_concrete :
   | _, _ => False
   end.
 Proof. exact ex15_concrete. Qed.
+
+(* ---- make_solver<relaxation::as_preconditioner<chebyshev>, S>: the Chebyshev object (state p, r) is a simulated
+   stateful preconditioner as well (law-free), hence the composite object is reusable ---- *)
+Theorem C15_chebyshev_is_a_simulated_stateful_preconditioner (S : Scalar) (Z : is_zero (@s0 S) = true) (c d : S)
+  (M : option (vec S)) (degree : nat) (A : crs S) (st0 : vec S * vec S) :
+  (forall m, M = Some m -> length m = nrows A) -> cheby_state_ok A st0 ->
+  simulates (nrows A) (cheby_state_ok A) (cheby_sp c d M degree A)
+            (fun r => fst (cheby_call (c, d, M) degree A st0 r (vclear (vzero (nrows A))))).
+Proof. intro HM. exact (cheby_simulates Z c d M degree A HM st0). Qed.
+Theorem C15_make_solver_chebyshev_cg_reuse (S : Scalar) (Z : is_zero (@s0 S) = true) (c d : S) (M : option (vec S))
+  (degree : nat) (A : crs S) (hist : list (@kcall S)) (c0 : @kcall S) (ws0 wsf : cg_ws) (st0 stf : vec S * vec S) :
+  (forall m, M = Some m -> length m = nrows A) ->
+  Forall (call_ok (nrows A)) hist -> call_ok (nrows A) c0 ->
+  cg_sized (nrows A) ws0 -> cheby_state_ok A st0 -> cg_sized (nrows A) wsf -> cheby_state_ok A stf ->
+  fst (cg_obj_call (cheby_sp c d M degree A) c0 (cg_obj_history (cheby_sp c d M degree A) hist (ws0, st0))) =
+  fst (cg_obj_call (cheby_sp c d M degree A) c0 (wsf, stf)).
+Proof. intro HM. exact (make_solver_cheby_cg_reuse Z c d M degree A HM hist c0 ws0 wsf st0 stf). Qed.
+Theorem C15_make_solver_chebyshev_bicgstab_reuse (S : Scalar) (Z : is_zero (@s0 S) = true) (c d : S) (M : option (vec S))
+  (degree : nat) (A : crs S) (hist : list (@kcall S)) (c0 : @kcall S) (ws0 wsf : bs_ws) (st0 stf : vec S * vec S) :
+  (forall m, M = Some m -> length m = nrows A) ->
+  Forall (call_ok (nrows A)) hist -> call_ok (nrows A) c0 ->
+  bs_sized (nrows A) ws0 -> cheby_state_ok A st0 -> bs_sized (nrows A) wsf -> cheby_state_ok A stf ->
+  fst (bs_obj_call (cheby_sp c d M degree A) c0 (bs_obj_history (cheby_sp c d M degree A) hist (ws0, st0))) =
+  fst (bs_obj_call (cheby_sp c d M degree A) c0 (wsf, stf)).
+Proof. intro HM. exact (make_solver_cheby_bicgstab_reuse Z c d M degree A HM hist c0 ws0 wsf st0 stf). Qed.
+Print Assumptions C15_make_solver_chebyshev_bicgstab_reuse.
